@@ -101,10 +101,10 @@ def _build(item):
     for tname in TRANS:
         for pl in places:
             plans.append(((tname, pl, False),))
-        for pl in places[::3]:
+        for pl in places[::STEP[1]]:
             plans.append(((tname, pl, True),))
     # histories of two placements (profile only: nested or sequential regions)
-    for p1, p2 in itertools.islice(itertools.combinations(places, 2), 0, None, 5):
+    for p1, p2 in itertools.islice(itertools.combinations(places, 2), 0, None, STEP[0]):
         plans.append((("ProfileTrans", p1, False), ("ProfileTrans", p2, False)))
         plans.append((("ProfileTrans", p1, True), ("ProfileTrans", p2, True)))
     for plan in plans:
@@ -293,7 +293,15 @@ MATCHERS = {"exit-cycle-inside-region": m_exit_cycle,
             "extract-return-inside-region": m_extract_return}
 
 
+STEP = [5, 3]     # sampling of two-placement histories / named placements (quick)
+
+
 def run(tier):
+    global DOM
+    if tier != "quick":        # thorough: every history of two placements, more trip counts
+        DOM = [("n", [0, 1, 2, 3]), ("m", [1, 2, 3]), ("c1", [True, False]), ("c2", [True, False]),
+               ("t", [[1, 2]])]
+        STEP[0], STEP[1] = 1, 1
     core.setup_psyclone_env()
     out = core.Outcome("C28", tier, "model_checking", matchers=MATCHERS)
     results = [r for part in core.pool_map(_build, items(tier), chunksize=1) for r in part]
